@@ -84,7 +84,9 @@ def connect_contract():
                     modifies=["self._client", "self._incoming_task", "ghost.tasks"] + SG,
                     ensures=[P("C18/subscriptions", f"g('ghost.slen') == s0 + 5 and {topics}"),
                              P("C18/receive-task-started", "g('ghost.tasks') == old(g('ghost.tasks')) + 1 and not (self._incoming_task is None)")],
-                    raises={"TransportError": [H("C18/connect-failed", "True")]}, check_wf=False)
+                    raises={"TransportError": [H("C18/connect-failed", "True"),
+                                               # C16: "if connecting fails the error propagates and no background task is left behind"
+                                               P("C16/failed-connect-leaves-no-task", "g('ghost.tasks') == old(g('ghost.tasks'))")]}, check_wf=False)
 
 
 def disconnect_contract():
